@@ -26,10 +26,18 @@
 (* flags[a] \in {"", "wfault", "dfault", "prop"}: the cell's __setitem__/__setattr__    *)
 (* raises, its __delitem__/__delattr__ raises, its class has a read-only property "r".  *)
 (* facfail = k > 0: the missing-factory raises on its k-th call.                         *)
+(* The same spec object may be evaluated again on another target (StartAgain): memo is   *)
+(* whatever the spec object carries from one evaluation to the next -- nothing (0).      *)
 EXTENDS GlomAccess
 
 CONSTANT Mutant       \* "none" | "attach_first" | "factory_per_segment" | "replace_existing"
-                      \*        | "catch_index_only" | "ignore_skips_delete"
+                      \*        | "ignore_skips_delete"
+                      \* historic behaviours of glom, repaired since (a regression is a VIOLATION):
+                      \*        | "catch_index_only"  Delete._del_one read only IndexError of T[key] as missing
+                      \*        | "tail_copies_value" the nested Assign of missing= re-evaluated the value (copy)
+                      \*        | "tail_value_lost"   S-rooted destination + missing=: value written outside the tail
+                      \* state kept on the spec object between evaluations (must not exist):
+                      \*        | "memo_split"        the split at the first absent segment is remembered
 
 \* ===================================================================================
 \* 1. Python primitives on the heap (trusted reference semantics of four statements)
@@ -294,14 +302,14 @@ KeepsEntries(c, h) == \A a \in 1..N0(c) : h[a].cls = c.heap0[a].cls /\ IsPrefix(
 \* ===================================================================================
 \* 3. The mechanism
 \* ===================================================================================
-VARIABLES case, pc, heap, cur, idx, val, stk, nfac, log, out, queue
-mvars == <<case, pc, heap, cur, idx, val, stk, nfac, log, out, queue>>
+VARIABLES case, pc, heap, cur, idx, val, stk, nfac, log, out, queue, memo
+mvars == <<case, pc, heap, cur, idx, val, stk, nfac, log, out, queue, memo>>
 
 St == [case |-> case, pc |-> pc, heap |-> heap, cur |-> cur, idx |-> idx, val |-> val,
-       stk |-> stk, nfac |-> nfac, log |-> log, out |-> out, queue |-> queue]
+       stk |-> stk, nfac |-> nfac, log |-> log, out |-> out, queue |-> queue, memo |-> memo]
 Become(s) == /\ case' = s.case /\ pc' = s.pc /\ heap' = s.heap /\ cur' = s.cur /\ idx' = s.idx
              /\ val' = s.val /\ stk' = s.stk /\ nfac' = s.nfac /\ log' = s.log /\ out' = s.out
-             /\ queue' = s.queue
+             /\ queue' = s.queue /\ memo' = s.memo
 
 NoOut == [ok |-> TRUE, mech |-> "", v |-> VNone]
 Frame(tgt, lo) == [tgt |-> tgt, lo |-> lo, brk |-> 0]
@@ -312,8 +320,11 @@ AfterFetch(s) == IF s.idx >= NSteps(s.case) THEN [s EXCEPT !.pc = WritePc(s)] EL
 
 Start(c) ==
   LET s == [case |-> c, pc |-> "fetch", heap |-> c.heap0, cur |-> c.root, idx |-> 1, val |-> VNone,
-            stk |-> <<Frame(c.root, 1)>>, nfac |-> 0, log |-> <<>>, out |-> NoOut, queue |-> <<>>]
+            stk |-> <<Frame(c.root, 1)>>, nfac |-> 0, log |-> <<>>, out |-> NoOut, queue |-> <<>>, memo |-> 0]
   IN IF c.kind = "assign" THEN [s EXCEPT !.pc = "evalval"] ELSE AfterFetch(s)
+
+\* the same spec object evaluated once more, on the target of case c
+StartAgain(c, m) == [Start(c) EXCEPT !.memo = m]
 
 Finish(s, ok, mech) ==
   [s EXCEPT !.pc = "done", !.out = [ok |-> ok, mech |-> mech, v |-> IF ok THEN s.case.root ELSE VNone]]
@@ -341,7 +352,10 @@ DoFetch(s) ==
      ELSE IF c.kind = "delete" THEN                       \* except PathAccessError: if not ignore_missing: raise
             (IF c.ignore THEN Finish(s, TRUE, "") ELSE Finish(s, FALSE, "PathAccessError"))
      ELSE IF c.missing = "none" THEN Finish(s, FALSE, "PathAccessError")
-     ELSE [s EXCEPT !.stk[Len(s.stk)].brk = s.idx, !.pc = "factory"]
+     ELSE LET remember == Mutant = "memo_split" /\ Len(s.stk) = 1
+              brk == IF remember /\ s.memo # 0 THEN s.memo ELSE s.idx
+          IN [s EXCEPT !.stk[Len(s.stk)].brk = brk, !.pc = "factory",
+                       !.memo = IF remember /\ s.memo = 0 THEN s.idx ELSE @]
 
 \* self.missing(), then the nested Assign(remaining_path, val, missing) starts on the new object
 DoFactory(s) ==
@@ -367,8 +381,12 @@ DoWrite(s) ==
               THEN PathEval(s.heap, c.root, SubSeq(c.steps, 1, s.idx - 2)).v ELSE s.cur
       stp == IF Mutant = "replace_existing" /\ s.pc = "store" /\ s.nfac > 0 /\ s.idx > 1
              THEN c.steps[s.idx - 1] ELSE c.steps[s.idx]
+      innermost == s.pc = "tail" /\ s.idx = NSteps(c)          \* the value itself goes into the newest container
+      copied == Mutant = "tail_copies_value" /\ innermost /\ IsRef(s.val)
+      hv == IF copied THEN Append(s.heap, s.heap[s.val.a]) ELSE s.heap
       r == IF Mutant = "attach_first" /\ s.pc = "store" /\ s.nfac > 0 THEN POk(s.heap, <<>>)
-           ELSE StoreOp(s.heap, c.flags, dest, stp, s.val)
+           ELSE IF Mutant = "tail_value_lost" /\ innermost THEN POk(s.heap, <<>>)
+           ELSE StoreOp(hv, c.flags, dest, stp, IF copied THEN VRef(Len(hv)) ELSE s.val)
       s1 == [s EXCEPT !.heap = r.heap, !.log = @ \o r.evs]
   IN IF ~r.ok THEN Finish(s1, FALSE, r.exc)
      ELSE IF s.queue # <<>> THEN [s1 EXCEPT !.cur = Head(s.queue), !.queue = Tail(s.queue)]   \* next match
@@ -435,6 +453,8 @@ FactoryLaw == (Running \/ pc = "done") =>
                 /\ nfac = FactoryCalls(log)
                 /\ nfac <= AbsentSegments(case)
                 /\ (pc = "done" /\ out.ok /\ case.kind = "assign" => nfac = AbsentSegments(case))
+\* evaluating a spec leaves nothing on the spec object for the next evaluation
+SpecCarriesNothing == memo = 0
 \* the outcome and the final heap are what the law expects
 Outcome == pc = "done" => Conforms(case, Ref(case), out.ok, out.mech, out.v, heap)
 \* existing intermediate values are never replaced when segments are created
